@@ -777,6 +777,30 @@ def rule_opt(ctx):
                 ctx.ob('C01.opt', f'{mod.name}:BinaryOpUGen.{name}:{norm(c)}:placed-first', placed,
                        f'{norm(c)} runs before `self._synthdef._replace_ugen(self, {v})`: the new unit has no index yet, a rewrite of it '
                        f'overwrites the last unit of the definition (an Out disappears)', c, mod)
+    # after a fusion every input of the replacement gains it as a reader and loses both the replaced and the absorbed unit -
+    # unconditionally: the inputs inherited from the absorbed unit were never read by self, but they are read by the replacement now
+    ud = ci.methods['_optimize_update_descendants']
+    rp_, dl_ = ud.params[1], ud.params[2]
+    lp = [l for l in walk_local(ud.node) if isinstance(l, ast.For)]
+    okd, why = False, 'loop over the inputs of the replacement not found'
+    if len(lp) == 1 and norm(lp[0].iter) == f'{rp_}.inputs':
+        want = {('add', rp_), ('discard', 'self'), ('discard', dl_)}
+        got = {}
+        for c in U.calls(lp[0]):
+            if U.method_name(c) in ('add', 'discard', 'remove') and norm(c.func.value).endswith('._descendants') and c.args:
+                tests = []
+                for p_ in U.parent_chain(c):
+                    if p_ is lp[0]:
+                        break
+                    if isinstance(p_, ast.If):
+                        tests.append(norm(p_.test))
+                got[(U.method_name(c), norm(c.args[0]))] = [t for t in tests if t != 'isinstance(input, UGen)']
+        cond = {k: v for k, v in got.items() if v}
+        okd = want <= set(got) and not cond
+        why = f'updates {sorted(got)}; conditional ones {cond}'
+    ctx.ob('C01.opt', f'{mod.name}:BinaryOpUGen._optimize_update_descendants:unconditional', okd,
+           f'every unit input of the replacement must get add(replacement), discard(self), discard(deleted unit) without further conditions; {why}',
+           ud.node, mod)
     # _optimize_add installs what helpers return
     f = ci.methods['_optimize_add']
     src = full(f.node)
@@ -985,6 +1009,9 @@ def run(ctx):
 
 
 MUTANTS = [
+    dict(rule='C01.opt', name='the replacement becomes a reader only where self was one (seed C01-h)', file='sc3/synth/ugen.py',
+         old="                input._descendants.add(replacement)\n                input._descendants.discard(self)\n",
+         new="                if self in input._descendants:\n                    input._descendants.discard(self)\n                    input._descendants.add(replacement)\n"),
     dict(rule='C01.opt', name='the replacement of a sum is optimised before it is placed (seed C01-g)', file='sc3/synth/ugen.py',
          old="        if optimized_ugen:\n            self._synthdef._replace_ugen(self, optimized_ugen)", new="        if optimized_ugen:\n            optimized_ugen._optimize_graph()\n            self._synthdef._replace_ugen(self, optimized_ugen)"),
     dict(rule='C01.dce', name='dead code elimination visits a twice-read input twice (fix reverted)', file='sc3/synth/ugen.py',
